@@ -328,43 +328,22 @@ func (s *mstate) step(i, k int, g *guide, ids map[*Op]int) *mstate {
 		return n
 	}
 	if r0.ext {
-		// the marker is the value of the form just evaluated in the top frame
-		weak := func() *mstate {
-			if len(top.ops) == 0 {
-				pop()
-				if top.kind == kLock {
-					n.mus[top.m] = -1
-				}
-			} else {
-				r.ext = false
-			}
-			return n
-		}
+		// the marker is the value of the form just evaluated in the top frame: every form passes it up at once,
+		// from any position of its body (slip after the repairs C07-1..21)
+		pop()
 		switch top.kind {
-		case kPlain:
-			pop()
-			return n
-		case kLock, kCatch:
-			return weak()
+		case kLock:
+			n.mus[top.m] = -1 // the deferred Unlock
 		case kBlock:
-			if !top.tb { // block
-				if r0.extTB {
-					return weak()
-				}
-				pop()
-				if top.b == r0.extB {
+			if !top.tb { // block: takes the return marker that carries its name
+				if !r0.extTB && top.b == r0.extB {
 					r.ext = false
 				}
-				return n
+			} else if r0.extTB && top.b == r0.extB { // tagbody: takes the go marker that carries its tag
+				r.ext = false
 			}
-			// tagbody
-			if r0.extTB {
-				pop()
-			}
-			r.ext = false
-			return n
 		}
-		return nil
+		return n
 	}
 	if len(top.ops) == 0 {
 		pop()
